@@ -260,7 +260,7 @@ pub fn generate(rng: &mut Rng, thorough: bool, n_quick: usize) -> Vec<Value> {
         let lib = gen::library(rng, hostile, 3, nested);
         let ext = if rng.chance(1, 4) { ".md" } else { "" };
         let mut cur: BTreeMap<String, String> = lib.iter().map(|n| (n.name.clone(), n.text.clone())).collect();
-        let pool: Vec<&str> = if nested { gen::KEYS[..10].to_vec() } else { vec!["a", "b", "c", "n1", "n2", "k", "m"] };
+        let pool: Vec<&str> = if nested { gen::KEYS[..13].to_vec() } else { vec!["a", "b", "c", "n1", "n2", "k", "m", "заметки"] };
         let steps = rng.range(1, if thorough { 8 } else { 5 });
         let mut ops = vec![];
         for _ in 0..steps {
